@@ -13,7 +13,10 @@ EXPLANATION = (
     "both operands; (R19.3) every PartialEq impl between Value (or &Value / &mut Value) and a primitive goes through the "
     "helper of the primitive's class (signed -> eq_i64, unsigned -> eq_u64, float -> eq_f64, bool -> eq_bool, string-like -> "
     "eq_str), widening with a cast to exactly that class, and each helper uses the accessor of its class; both directions "
-    "(Value == T and T == Value) exist for every primitive. Does NOT decide equality of numbers across representations."
+    "(Value == T and T == Value) exist for every primitive; and one sibling clause of the commuting part: (R19.4) the map-key "
+    "deserializers of the text route (serde::de::MapKey) and of the DOM route (value::de::MapKeyDeserializer) recognise a "
+    "numeric key by the same first-byte alphabet, the ten digits and '-', evaluated over all 256 byte values in each of "
+    "their 14 methods. Does NOT decide equality of numbers across representations."
 )
 ASSUMPTIONS = ["rustc MIR and callee resolution; impl table of the crate"]
 
